@@ -152,7 +152,8 @@ func HarnessRelayRequest() {
 // interchangeable with their decoded forms.
 func HarnessRelayTarget() {
 	e := newEnv(symChoice(2), 1<<30)
-	targets := []string{"/plain", "/dir%2Ffile", "/a%3Fb?x=1", "/a%23b", "/100%25", "/sp%20ace", "/%41bc", "/dir/file?x=%2F", "/a;b=c", "/caf%C3%A9"}
+	targets := []string{"/plain", "/dir%2Ffile", "/a%3Fb?x=1", "/a%23b", "/100%25", "/sp%20ace", "/%41bc", "/dir/file?x=%2F", "/a;b=c", "/caf%C3%A9",
+		"/up/sub/../file?q=1", "/a/./b", "/x/..", "/a//b"} // dot segments and empty segments are the client's to send
 	target := targets[symChoice(len(targets))]
 	u, err := url.ParseRequestURI(target)
 	vAssert(err == nil, "c08.harness-target-does-not-parse")
